@@ -46,6 +46,14 @@ def lat(s):
     return None if s is None else s.encode('latin-1')
 
 
+def shard_size(lits, budget=600000, lo=10, hi=150):
+    """cases per Coq file so that one file stays below ~budget characters (single list literals beyond ~40000 elements overflow coqc's stack)"""
+    if not lits:
+        return hi
+    worst = sorted(len(a) + len(b) for a, b in lits)[-max(1, len(lits) // 20)]      # 95th percentile
+    return max(lo, min(hi, budget // max(1, worst)))
+
+
 # ----------------------------------------------------------------------------- generators
 def gen_body(rng, big=False):
     k = rng.random()
@@ -554,7 +562,12 @@ def run(ctx):
         ctx.sample({'stream': name, 'kind': cases[0]['kind'], 'te': cases[0]['te'], 'cl': cases[0]['cl'], 'ce': cases[0]['ce'],
                     'data_hex': cases[0]['data'].hex()[:100], 'impl': {k2: (v[:80] if isinstance(v, str) else v) for k2, v in traces[0].items()}})
     runner = 'run_framing hdr_max available_encodings'
-    mism, err = ctx.coq_mism('framing', HEADER, 'fres_eqb', runner, [(a, b) for a, b, _, _ in flits], shard=150,
+    max_lit = 40000       # larger cases are judged by the oracle only
+    n_too_large = sum(1 for x in flits if len(x[0]) + len(x[1]) > max_lit)
+    flits = [x for x in flits if len(x[0]) + len(x[1]) <= max_lit]
+    ctx.cov['framing_cases_too_large_for_coq_literals'] = n_too_large
+    mism, err = ctx.coq_mism('framing', HEADER, 'fres_eqb', runner, [(a, b) for a, b, _, _ in flits],
+                             shard=shard_size([(a, b) for a, b, _, _ in flits]),
                              deps=['Http/Gen_Params.vo', 'Http/Negotiation.vo'])
     if err:
         ctx.broken('correspondence', 'framing (coq evaluation)', err)
